@@ -25,10 +25,29 @@ def battery_trees():
         "mixed": ("Divide", ("Multiply", [("Sine", d), ("NthRoot", b, 2), ("NthRoot", a, 2)]),
                   ("Add", [c, ("Negation", a), ("Reciprocal", b), ("Constant", 1.5)])),
         "roots": ("Multiply", [("NthRoot", c, 3), ("NthPower", a, 2), ("NthRoot", a, 3), ("NthPower", d, 2)]),
+        # at the failing points below, different partials of this one fail in different ways
+        "partial-failures": ("Add", [("Multiply", [("Logarithm", a, 2), a]), ("Multiply", [b, c]), ("NthRoot", d, 2)]),
+        # names that differ only by case (ties for any case-insensitive ordering)
+        "case-names": ("Add", [("Multiply", [a, ("Variable", "A")]), ("Multiply", [("Variable", "B"), b]), c, d]),
     }
 
 
-COORDS = {"a": 1.3, "b": 0.7, "c": 2.9, "d": 0.1}
+# points outside the domain / with a coordinate missing: which exception escapes is part of the outcome
+FAILING = {
+    "a<0, c missing": {"a": -1.3, "b": 0.7, "d": 0.1},
+    "d=0, b missing": {"a": 1.3, "c": 2.9, "d": 0.0},
+    "a=0": {"a": 0.0, "b": 0.7, "c": 2.9, "d": 0.1},
+}
+
+
+COORDS = {"a": 1.3, "b": 0.7, "c": 2.9, "d": 0.1, "A": 0.9, "B": 1.1}
+
+
+def exc_text(exc) -> str:
+    """type and message of a raised exception (the message is part of the outcome)"""
+    args = exc.attrs.get("args", ()) if isinstance(exc, Obj) else getattr(exc, "args", ())
+    msg = args[0] if args and isinstance(args[0], str) else ""
+    return f"raises {exc_name(exc)}: {msg}"
 
 
 def battery_case(args):
@@ -42,7 +61,7 @@ def battery_case(args):
     out = {}
     try:
         e = build(it, tree, {})
-        pt = make_point_concrete(it, {k: COORDS[k] for k in coord_order})
+        pt = make_point_concrete(it, {k: COORDS[k] for k in tuple(coord_order) + ("A", "B")})
 
         def num(v):
             return repr(v.conc) if isinstance(v, SymNum) else repr(v)
@@ -61,10 +80,37 @@ def battery_case(args):
             out[f"as_expression {v}"] = expr(it.call(it.getattr(it.call(cref(model, "Partial"), [e, v], {}), "as_expression"), [], {}))
             out[f"early as_expression {v}"] = expr(it.call(it.getattr(it.call(it.getattr(de, "component"), [v], {}), "as_expression"), [], {}))
         # the same objects, the same point with its coordinates written in the reverse order
-        pt2 = make_point_concrete(it, {k: COORDS[k] for k in reversed(coord_order)})
+        pt2 = make_point_concrete(it, {k: COORDS[k] for k in ("B", "A") + tuple(reversed(coord_order))})
+        # entry points that reject an expression with several variables: type AND message are the outcome
+        for key, fn in (("at(number)", lambda: it.call(it.getattr(e, "at"), [SymNum.of(2.0)], {})),
+                        ("Derivative()", lambda: it.call(cref(model, "Derivative"), [e], {})),
+                        ("Derivative(early)", lambda: it.call(cref(model, "Derivative"), [e], {"compute_early": True}))):
+            try:
+                fn()
+                out[f"rejection {key}"] = "accepted"
+            except InterpRaise as r:
+                out[f"rejection {key}"] = exc_text(r.exc)
         out["at (reordered point, same objects)"] = num(it.call(it.getattr(e, "at"), [pt2], {}))
         out["located (reordered point, same objects)"] = num(it.call(it.getattr(
             it.call(cref(model, "LocatedDifferential"), [e, pt2], {}), "component"), ["b"], {}))
+        for label, coords in FAILING.items():
+            order = [k for k in coord_order if k in coords]
+            fp = make_point_concrete(it, {k: coords[k] for k in order})
+
+            def attempt(key, fn):
+                try:
+                    out[f"{key} at failing point ({label})"] = num(fn())
+                except InterpRaise as r:
+                    out[f"{key} at failing point ({label})"] = "raises " + exc_name(r.exc)
+            attempt("at", lambda: it.call(it.getattr(e, "at"), [fp], {}))
+            attempt("located", lambda: it.call(it.getattr(it.call(cref(model, "LocatedDifferential"), [e, fp], {}),
+                                                          "component"), ["b"], {}))
+            attempt("early located", lambda: it.call(it.getattr(it.call(it.getattr(de, "at"), [fp], {}), "component"), ["b"], {}))
+            attempt("differential.at", lambda: it.call(it.getattr(it.call(it.getattr(
+                it.call(cref(model, "Differential"), [e], {}), "at"), [fp], {}), "component"), ["d"], {}))
+            for v in "abcd":
+                attempt(f"partial {v}", lambda: it.call(it.getattr(it.call(cref(model, "Partial"), [e, v], {}), "at"), [fp], {}))
+                attempt(f"early component_at {v}", lambda: it.call(it.getattr(de, "component_at"), [v, fp], {}))
         out["normalize"] = expr(it.call(it.getattr(e, "_normalize"), [], {}))
         out["repr"] = it.to_repr(e)
         out["hash-consistent"] = repr(it.call_builtin("hash", [e], {}) == it.call_builtin("hash", [build(it, tree, {})], {}))
